@@ -314,20 +314,26 @@ func aggregateRows(selectList sql.SelectList, groupBy []sql.ColumnReference, row
 		return emptyAggregateRow(selectList, rows)
 	}
 
-	// map columns to indexes on the select list
-	colToIdx := map[sql.ColumnReference]int{}
-	for idx, col := range selectList {
-		switch col := col.ValueExpressionPrimary.(type) {
-		case sql.ColumnReference:
-			colToIdx[col] = idx
+	// map GROUP BY columns to indexes on the select list. a grouping column
+	// may name a select column by its name, its qualified name or its alias
+	groupIdx := make([]int, len(groupBy))
+	for i, groupByCol := range groupBy {
+		groupIdx[i] = -1
+		for idx, col := range selectList {
+			if col.IsColumnReference() && col.Matches(groupByCol) {
+				groupIdx[i] = idx
+				break
+			}
+		}
+		if groupIdx[i] == -1 {
+			return nil, fmt.Errorf("%w: %s", storage.ErrFieldNotFound, groupByCol)
 		}
 	}
 
 	// generate keys for GROUP BY values
 	groupKey := func(row *storage.Row) string {
 		var key string
-		for _, groupByCol := range groupBy {
-			idx := colToIdx[groupByCol]
+		for _, idx := range groupIdx {
 			key += fmt.Sprintf("%v", row.Vals[idx])
 		}
 		return key
